@@ -3,6 +3,7 @@
 # Copyright (c) 2020-2022 Tatu Ylonen.  See file LICENSE and https://ylonen.org
 
 import html
+import decimal
 import math
 import posixpath
 import re
@@ -983,7 +984,21 @@ def binary_round_fn(
     # The digit count is an integer (MediaWiki truncates it); clamp it, as
     # round(5, -10**400) would first compute 10**(10**400).
     digits = max(-400, min(400, int(y)))
-    return round(x, digits)
+    if isinstance(x, int) and digits >= 0:
+        return x
+    if isinstance(x, float) and not math.isfinite(x):
+        return x
+    # MediaWiki (PHP round()) rounds halves away from zero: 1/2 round 0 = 1,
+    # -1/2 round 0 = -1; Python's round() would round them to even.
+    with decimal.localcontext() as dctx:
+        dctx.prec = 2000
+        d = (
+            decimal.Decimal(x)
+            .scaleb(digits)
+            .quantize(decimal.Decimal(1), rounding=decimal.ROUND_HALF_UP)
+            .scaleb(-digits)
+        )
+    return int(d) if isinstance(x, int) else float(d)
 
 
 binary_round_fns: dict[str, BinaryCallable] = {
